@@ -20,6 +20,11 @@ Binding demonstration (selftest/mutations/C06/*.diff, each verified with selftes
   Non-lattice families (LinGeneral; caught ONLY there): slerp's linear fallback using the un-negated a for -0.99999 < dot < -0.9995,
   rotate() with the wrong sine sign for 3.3 < angle < 4.1 rad, rotate() wrong for axes with 0.9 < |u.y| < 0.99, inverse() wrong for
   |det| > 4.5, slerp wrong only off t = 0, 1/2, 1; one term of the y-largest quaternion branch that vanishes on the cube group.
+  Boundary audit additions (each caught by the named family): scalar * LinearSpace3 dropping vz (Ops3 / AffOps smul2), scalar -
+  quaternion sign (HQuat subl), AffineSpaceT operator!= ignoring p (AffOps ne), LinearSpace3 converting constructor swapping
+  columns (Convert3), LinearSpace3 operator/= operand order (Ops3 diveq), frame(N, up) falling back to frame(up) (GenFrame nearly
+  parallel / antiparallel only), lookat origin wrong for |eye.x| > 4 (GenLookat), orthogonal() with two iterations (Orthogonal2,
+  GenMat2), det() + 1e-12 (GenMat3 scaled-down only).
   Trace corruption (one state field / one query result flipped, one event deleted) is rejected by LinTrace at that event."""
 import json, os, random, time
 from concurrent.futures import ThreadPoolExecutor
@@ -49,7 +54,10 @@ LEVEL_TEXT = ("TLC checks the laws of the LinAlgebra specification for every 2x2
               "R(a)R(b) = R(a+b), R(-a) = R(a)^T, sense of rotation, Rodrigues anchors at multiples of pi/2, half-angle chains from 2uu^T - I, "
               "q ~ -q, S_1/2^2 = A^T B, S_1/4^2 = S_1/2, S_3/4 = S_1/2 S_1/4, short arc, same axis, chord law for nearly parallel pairs, "
               "K inverse(M) = 8 I, det(M) = Det(K)/8^n, det multiplicative, K^T xfmNormal = 8 v, rcp(A)A = id, (AB)p = A(Bp) = the exact "
-              "rational value)")
+              "rational value; frame(N), frame(N, up) and lookat for general directions with up nearly parallel / anti-parallel; matrices "
+              "scaled by 2^-16 .. 2^16; orthogonal() of general 2x2 matrices).  Every operator overload (scalar *, / scalar, / matrix, "
+              "compound assignments, unary +, aliasing x *= x and x /= x, ==, !=, copy / assignment, converting constructors between float / "
+              "double / padded, all scalar and mixed-type quaternion operators) is compared with the value the specification computes")
 LEVEL_NOTE = ("bounded and exact-arithmetic only: matrix entries in -1..1 (2x2 also -2..2), translations in -3..3, rotation axes = the 13 axes "
               "of the cube with angles that are multiples of the axis' own turn (pi/2, 2pi/3, pi) within [-2pi, 2pi], yaw/pitch/roll multiples "
               "of a quarter turn (convention recovered from the constructor's formula and frozen: q = q_y(yaw) q_x(pitch) q_z(roll)), slerp "
@@ -59,7 +67,11 @@ LEVEL_NOTE = ("bounded and exact-arithmetic only: matrix entries in -1..1 (2x2 a
               "the one its definition gives (U = Z x up, V = U x Z: a left-handed triple); orthogonal() is checked as the orthogonal polar "
               "factor.  AffineSpaceT::rotate(point, quaternion) could not be instantiated in the library as pinned (compile error, repaired): it is "
               "checked when the probe build succeeds, otherwise reported as a note.  2D rotate(point, angle) exists for float only.  "
-              "the non-lattice families are seeded samples judged by laws with tolerances of 4e-4 .. 4e-3 (re-scaled products of recorded "
+              "degenerate inputs the statement leaves undefined are not exercised: zero-length axes / normals / quaternions, lookat with up exactly "
+              "parallel to the viewing direction or point = eye, inverse of singular matrices; float overflow / underflow of det for entries "
+              "beyond about 2^+-40 is not decided (matrices scaled by 2^-16 .. 2^16 are).  AffineSpaceT / scalar, *= scalar, /= scalar, "
+              "double * QuaternionT<float> and the operator Scalar*() conversions cannot be instantiated (compile errors in the library) and "
+              "are therefore not checked.  the non-lattice families are seeded samples judged by laws with tolerances of 4e-4 .. 4e-3 (re-scaled products of recorded "
               "matrices accumulate rounding of the 2^-14 records), the condition filter is the sufficient bound |K|_F |Adj K|_F <= 64 |det K| "
               "evaluated in exact integer arithmetic (records outside it are skipped and counted).  trusted: TLC, the driver's format conversions (round within 1e-4, scale by 2^14), std::sqrt for normalising input axes, g++")
 TECHNIQUE = ("TLA+ functional specification in exact integer arithmetic; laws model-checked by TLC over the complete bounded lattice and the "
@@ -67,11 +79,11 @@ TECHNIQUE = ("TLA+ functional specification in exact integer arithmetic; laws mo
              "validation of recorded rational / law-defined results and of recorded random executions")
 SPEC = os.path.join(VERIF, "spec", "math")
 
-GROUPS = ["lin2", "lin3", "pair3", "aff3", "rot", "quat", "slerp"]
+GROUPS = ["lin2", "lin3", "pair3", "aff3", "rot", "quat", "slerp", "ops"]
 TNAME = {"f": "float", "d": "double", "fa": "float,aligned"}
-OPS_2D = {"Unary2", "Inverse2", "MulVec2", "Pair2", "Rotate2", "Ctor2", "Aff2Pair", "Aff2Rot", "Aff2RotAbout", "Orthogonal2"}
+OPS_2D = {"Unary2", "Inverse2", "MulVec2", "Pair2", "Rotate2", "Ctor2", "Aff2Pair", "Aff2Rot", "Aff2RotAbout", "Orthogonal2", "Ops2", "Convert2"}
 OPS_AFF2 = {"Aff2Pair", "Aff2Rot", "Aff2RotAbout"}
-OPS_AFF3 = {"AffXfm", "AffInv", "AffPair", "AffCtor", "AffRotate", "AffRotateAboutQ", "Lookat"}
+OPS_AFF3 = {"AffXfm", "AffInv", "AffPair", "AffCtor", "AffRotate", "AffRotateAboutQ", "Lookat", "AffOps", "GenLookat"}
 OPS_QUAT = {"QuatAA", "QuatFromMat", "QuatFromRot", "QuatPair", "QuatVec", "HQuat", "QuatYPR", "QuatRat", "Slerp"}
 TRACE_OPS = ["TNew", "TMulL", "TMulR", "TTrans", "TRotH", "TInv", "TQuery"]
 
@@ -364,7 +376,7 @@ def recorded_executions(chk, exe, variant, acts):
 # ---------------------------------------------------------------------------------------------
 # code -> spec: non-lattice families (spec/math/LinGeneral.tla) - seeded random inputs, every record decided by TLC
 # ---------------------------------------------------------------------------------------------
-GEN_OPS = ["GenRot", "GenHalf", "GenSlerp", "GenMat3", "GenMat2"]
+GEN_OPS = ["GenRot", "GenHalf", "GenSlerp", "GenMat3", "GenMat2", "GenFrame", "GenLookat"]
 OPS_QUAT.add("GenSlerp")
 OPS_2D.add("GenMat2")
 TWO_PI = 6.283185307179586
@@ -445,13 +457,54 @@ def _kmat(rnd, d):
     return k
 
 
+def _near(rnd, v, mult=16):
+    """An integer vector nearly parallel / anti-parallel to v (angle about 0.005 .. 0.1), never exactly parallel."""
+    while True:
+        m = rnd.choice([1, 2, 4, 8])
+        sg = rnd.choice([1, -1])
+        w = [sg * (mult * x + rnd.randint(-m, m)) for x in v]
+        cross = [v[1] * w[2] - v[2] * w[1], v[2] * w[0] - v[0] * w[2], v[0] * w[1] - v[1] * w[0]]
+        if any(cross):
+            return w
+
+
+def _dir8(rnd):
+    while True:
+        a = [rnd.randint(-8, 8) for _ in range(3)]
+        if sum(abs(x) for x in a) >= 3:
+            return a
+
+
+def gen_frame_inputs(rnd, n):
+    out = []
+    for _ in range(n):
+        v = _dir8(rnd)
+        kind = rnd.choice(["near", "near", "generic", "exact"])
+        m = rnd.choice([1, -1, 3, -2])
+        up = _near(rnd, v) if kind == "near" else ([m * x for x in v] if kind == "exact" else _dir8(rnd))
+        out.append({"a": "GenFrame", "arg": {"n": v, "up": up}})
+    return out
+
+
+def gen_lookat_inputs(rnd, n):
+    out = []
+    while len(out) < n:
+        eye = [rnd.randint(-8, 8) for _ in range(3)]
+        d = _dir8(rnd)
+        up = _near(rnd, d) if rnd.random() < 0.6 else _dir8(rnd)
+        if not any([d[1] * up[2] - d[2] * up[1], d[2] * up[0] - d[0] * up[2], d[0] * up[1] - d[1] * up[0]]):
+            continue                                         # up exactly parallel to the viewing direction: undefined, outside the statement
+        out.append({"a": "GenLookat", "arg": {"eye": eye, "point": [e + x for e, x in zip(eye, d)], "up": up}})
+    return out
+
+
 def gen_mat_inputs(rnd, n, d):
     out = []
     for _ in range(n):
-        arg = {"ka": _kmat(rnd, d), "kb": _kmat(rnd, d)}
+        arg = {"ka": _kmat(rnd, d), "kb": _kmat(rnd, d), "e": rnd.choice([0, 0, 0, -16, -5, 5, 16])}
         if d == 3:
             arg.update({"pa": [rnd.randint(-16, 16) for _ in range(3)], "pb": [rnd.randint(-16, 16) for _ in range(3)],
-                        "vs": [[rnd.randint(-16, 16) for _ in range(3)] for _ in range(3)]})
+                        "vs": [[rnd.randint(-4, 4) for _ in range(3)] for _ in range(3)]})
         out.append({"a": "GenMat%d" % d, "arg": arg})
     return out
 
@@ -459,7 +512,7 @@ def gen_mat_inputs(rnd, n, d):
 def general_inputs(rnd, quick):
     f = 1 if quick else 8
     return (gen_rot_inputs(rnd, 140 * f) + gen_half_inputs(rnd, 12 * f) + gen_slerp_inputs(rnd, 160 * f)
-            + gen_mat_inputs(rnd, 120 * f, 3) + gen_mat_inputs(rnd, 80 * f, 2))
+            + gen_mat_inputs(rnd, 140 * f, 3) + gen_mat_inputs(rnd, 100 * f, 2) + gen_frame_inputs(rnd, 100 * f) + gen_lookat_inputs(rnd, 100 * f))
 
 
 GENERAL_GUARDS = {   # (operation, substring of the class) -> minimal number of records TLC judged "ok" or rejected (not skipped), per variant
@@ -467,7 +520,10 @@ GENERAL_GUARDS = {   # (operation, substring of the class) -> minimal number of 
     ("GenRot", "sum-anchored"): 20, ("GenRot", "sense-decided"): 40, ("GenRot", "tiny-angle"): 5, ("GenRot", "beyond-pi-or-near"): 20,
     ("GenHalf", "all"): 8,
     ("GenSlerp", "near-parallel"): 15, ("GenSlerp", "near-antiparallel"): 15, ("GenSlerp", "obtuse"): 15, ("GenSlerp", "acute"): 15,
-    ("GenMat3", "all"): 40, ("GenMat2", "all"): 25,
+    ("GenMat3", "unscaled"): 25, ("GenMat3", "scaled-up"): 8, ("GenMat3", "scaled-down"): 8,
+    ("GenMat2", "unscaled"): 15, ("GenMat2", "scaled-up"): 5, ("GenMat2", "scaled-down"): 5,
+    ("GenFrame", "nearly-parallel"): 10, ("GenFrame", "nearly-antiparallel"): 10, ("GenFrame", "exactly-parallel"): 8, ("GenFrame", "generic"): 10,
+    ("GenLookat", "up-nearly-parallel"): 10, ("GenLookat", "up-nearly-antiparallel"): 10, ("GenLookat", "generic"): 10,
 }
 
 
@@ -605,7 +661,7 @@ def run_cases(chk, rnd, quick, variants, level):
             "QuatRat": ["trace/all-terms", "x-largest/all-terms", "y-largest/all-terms", "z-largest/all-terms"],
             "Orthogonal2": ["proper", "mirrored"], "FrameUp": ["up-parallel", "coordinate"], "Frame": ["coordinate", "body-diagonal"]}
     for op in ["MulVec2", "Pair2", "Rotate2", "Ctor2", "Aff2Pair", "Aff2Rot", "Aff2RotAbout", "AffCtor", "AffRotateAboutQ", "Lookat", "QuatPair",
-               "HQuat", "QuatYPR"]:
+               "HQuat", "QuatYPR", "Ops2", "Ops3", "AffOps", "Convert2", "Convert3"]:
         need.setdefault(op, [])
     for op, cl in need.items():
         if not ops.get(op):
